@@ -58,7 +58,10 @@ func (x *Exec) libStatic(st *State, f *Frame, callee *ssa.Function, c *ssa.CallC
 		return Sc{App(SBool, "str.contains", sc(0), sc(1))}, true
 	case "strings.Index":
 		return Sc{App(SInt, "str.indexof", sc(0), sc(1), IntLit(0))}, true
-	case "strings.TrimSpace", "strings.ToUpper", "strings.Title", "net/url.QueryEscape", "net/url.PathEscape", "html.EscapeString":
+	case "strings.TrimSpace":
+		x.noteLib("strings.TrimSpace: the uninterpreted spec function trimSpace")
+		return Sc{reg.uf("sf_trimSpace", SStr, sc(0))}, true
+	case "strings.ToUpper", "strings.Title", "net/url.QueryEscape", "net/url.PathEscape", "html.EscapeString":
 		x.noteLib(name + ": uninterpreted pure function")
 		return Sc{reg.uf("lib"+mangle(name)[1:], SStr, sc(0))}, true
 	case "strings.TrimPrefix":
@@ -93,6 +96,11 @@ func (x *Exec) libStatic(st *State, f *Frame, callee *ssa.Function, c *ssa.CallC
 		nosep := Not(App(SBool, "str.contains", sc(0), sc(1)))
 		st.assume(Implies(And(nosep, Not(Eq(sc(1), StrLit("")))), And(Eq(n, IntLit(1)), Eq(e0, sc(0)))))
 		st.assume(Implies(Not(nosep), Cmp(">=", n, IntLit(2))))
+		// the parts are a function of (s, sep): spec functions splitCount / splitPart
+		st.assume(Eq(n, reg.uf("sf_splitCount", SInt, sc(0), sc(1))))
+		eh := st.heap("E|string|", []Sort{SInt, SInt}, SStr)
+		reg.declare("sf_splitPart", "(declare-fun sf_splitPart (String String Int) String)")
+		st.asserts = append(st.asserts, fmt.Sprintf("(forall ((j Int)) (! (= (select (select %s %s) j) (sf_splitPart %s %s j)) :pattern ((select (select %s %s) j))))", eh.Name, r.S, sc(0).S, sc(1).S, eh.Name, r.S))
 		return res, true
 	case "strings.SplitN":
 		if n, ok := isIntLit(sc(2)); ok && n == 2 {
@@ -203,6 +211,13 @@ func (x *Exec) libStatic(st *State, f *Frame, callee *ssa.Function, c *ssa.CallC
 		return Sc{reg.freshConst("timestr", SStr)}, true
 	case "(*sync.Mutex).Lock", "(*sync.RWMutex).Lock", "(*sync.RWMutex).RLock":
 		x.lockOp(st, f, args[0].(PtrV).A, true)
+		if ref, _, field, ok := guardKey(args[0].(PtrV).A); ok {
+			if strings.HasSuffix(name, "RLock") {
+				st.ghost["rl:"+ref.S+"."+field] = TTrue // shared mode: guarded state may be read, not written
+			} else {
+				delete(st.ghost, "rl:"+ref.S+"."+field)
+			}
+		}
 		return nil, true
 	case "(*sync.Mutex).Unlock", "(*sync.RWMutex).Unlock", "(*sync.RWMutex).RUnlock":
 		x.lockOp(st, f, args[0].(PtrV).A, false)
@@ -383,6 +398,9 @@ func (x *Exec) libInvoke(st *State, key string, c *ssa.CallCommon, args []Val) (
 		rw := args[0].(IfaceV)
 		x.setStatus(st, rw.Pay, IntLit(200))
 		x.ghostSet(st, "$bodyWritten", SBool, rw.Pay, TTrue)
+		if p, ok := args[1].(Sc); ok && p.T.Sort == SStr {
+			x.ghostSet(st, "$written", SStr, rw.Pay, strConcat(x.ghostGet(st, "$written", SStr, rw.Pay), p.T))
+		}
 		n := reg.freshConst("written", SInt)
 		return TupleV{[]Val{Sc{n}, st.freshVal(types.Universe.Lookup("error").Type(), "werr")}}, true
 	case "(error).Error":
@@ -429,6 +447,9 @@ func (x *Exec) libHTTP(st *State, f *Frame, name string, callee *ssa.Function, c
 	sc := func(i int) Term { return args[i].(Sc).T }
 	strT := types.Typ[types.String]
 	switch name {
+	case "net/http.CanonicalHeaderKey", "net/textproto.CanonicalMIMEHeaderKey":
+		x.noteLib("http.CanonicalHeaderKey: the spec function canonhdr (literals folded through the real function)")
+		return Sc{canonHeader(sc(0))}, true
 	case "(net/http.Header).Set", "(net/url.Values).Set":
 		key := sc(1)
 		if name == "(net/http.Header).Set" {
